@@ -1,7 +1,7 @@
 (** C03 -- Leaving a region re-synchronises the tool position. *)
 From Coq Require Import Reals String List Bool.
 From ER Require Import Base.Num Model.Geometry Model.Axis Model.Filter Spec.Printer
-  Proofs.FilterLemmas Proofs.Transparent Proofs.Deferred Proofs.Outputs Proofs.Track Proofs.FSync Proofs.Sync Proofs.MotionProps Proofs.Depth.
+  Proofs.FilterLemmas Proofs.Transparent Proofs.Deferred Proofs.Outputs Proofs.Track Proofs.FSync Proofs.Sync Proofs.MotionProps Proofs.Depth Base.GenPrelude Gen.GenAxis Proofs.TieAxis.
 Import ListNotations.
 Open Scope R_scope.
 
@@ -55,6 +55,18 @@ Theorem C03_premises_satisfiable : forall rs : list (region R),
 Proof. intros rs. exact (proj1 (depth_premises_satisfiable rs)). Qed.
 
 
+(** the axis arithmetic these theorems speak about is the code's: every conversion and every state-changing method of AxisPosition, as
+    GENERATED from /repo on this run, computes what the model's axis operations compute (for all axis states and arguments, over the reals) *)
+Theorem C03_axis_model_is_the_code : forall (a : axis R) (v : R) (b : bool),
+  l2n a v = axis_logicalToNative (axisR a) v /\ n2l a = axis_nativeToLogical (axisR a) /\
+  axisR (set_logical a v) = axis_setLogicalPosition (axisR a) v /\
+  axisR (set_offset_pos a v) = axis_setLogicalOffsetPosition (axisR a) v /\
+  axisR (set_home_offset a v) = axis_setHomeOffset (axisR a) v /\
+  axisR (set_home a) = axis_setHome (axisR a) /\
+  axisR (set_um a v) = axis_setUnitMultiplier (axisR a) v /\
+  axisR (set_absm a b) = axis_setAbsoluteMode (axisR a) b.
+Proof. exact axis_model_is_the_code. Qed.
+
 Print Assumptions C03_move_outside_closes.
 Print Assumptions C03_resync.
 Print Assumptions C03_tracking.
@@ -62,3 +74,4 @@ Print Assumptions C03_lastPosition.
 Print Assumptions C03_exit_sequence.
 Print Assumptions C03_travel_height.
 Print Assumptions C03_premises_satisfiable.
+Print Assumptions C03_axis_model_is_the_code.
